@@ -34,17 +34,10 @@ def EntryRule (e ch : Bytes) : Prop :=
 /-- a host matcher matches iff one of its entries does -/
 def HostRule (l : List Bytes) (ch : Bytes) : Prop := ∃ e, e ∈ l ∧ EntryRule e ch
 
-/-! ### documented path rules (for the pattern shapes that are not globs) -/
+/-! ### documented path rules: stated in `Props.lean` for the pattern shapes that are not globs
+    (exact, `pre*`, `*suf`, `*mid*`) over patterns made of literal bytes -/
 
 /-- `s` has none of the glob metacharacters `* ? [ \` -/
 def plainPat (s : Bytes) : Bool := !s.contains cStar && !s.contains 63 && !s.contains cLBr && !s.contains cBack
-
-/-- what a (provisioned, i.e. lower-case) pattern means on a canonical path -/
-inductive PatRule : Bytes → Bytes → Prop
-  | all (cp : Bytes) : PatRule [cStar] cp
-  | exact (pat : Bytes) : plainPat pat = true → PatRule pat pat
-  | pre (pre rest : Bytes) : plainPat pre = true → PatRule (pre ++ [cStar]) (pre ++ rest)
-  | suf (suf front : Bytes) : plainPat suf = true → PatRule (cStar :: suf) (front ++ suf)
-  | sub (mid front back : Bytes) : plainPat mid = true → PatRule (cStar :: mid ++ [cStar]) (front ++ mid ++ back)
 
 end CaddyModel.C06
